@@ -461,6 +461,11 @@ func c07Prop(t *testing.T, rt *rapid.T, c *vlib.Case) {
 	// labels are registered even when the oracle fails
 	defer func() {
 		c07Labels(c, st)
+		for _, m := range models {
+			fs := vidx.Stats(m)
+			c.LabelIf(fs.MaxDirChanges > 1000, "input-with-direction-changes>1000")
+			c.LabelIf(fs.ChattyNotLast, "input-with-direction-changes>1000-then-more-streams")
+		}
 		if st.shadowed > 0 && st.refDiffer > 0 {
 			var sb strings.Builder
 			for _, m := range models {
